@@ -92,6 +92,8 @@ class Family:
             return m.Diagram.cups(self.ty(e[1]), self.ty(e[2]))
         if op == "caps":
             return m.Diagram.caps(self.ty(e[1]), self.ty(e[2]))
+        if op == "transpose":
+            return self.run(e[1]).transpose(left=e[2])
         raise ValueError(op)
 
 
@@ -140,6 +142,8 @@ def tok_expr(e):
         return "normal_form %s %d" % (tok_expr(e[1]), 1 if e[2] else 0)
     if op in ("swap", "cups", "caps"):
         return "%s %s %s" % (op, tok_ty(e[1]), tok_ty(e[2]))
+    if op == "transpose":
+        return "transpose %s %d" % (tok_expr(e[1]), 1 if e[2] else 0)
     if op == "perm":
         return "perm %s %s" % (" ".join([str(len(e[1]))] + [str(x) for x in e[1]]), tok_ty(e[2]))
     raise ValueError(op)
